@@ -96,6 +96,8 @@ def gen(rng, tier, index):
         # returns must still consist of steps that satisfy the constraints
         solver["options"]["newton_max_iter"] = int(rng.integers(1, 4))
     add_knife_edge(rng, scene, prob=0.35)
+    if rng.random() < 0.35:
+        scene["t0"] = float(np.round(rng.uniform(-3.0, 8.0), 3))  # the time origin is arbitrary (continuation runs, shifted drives)
     return {"scene": scene, "solver": solver}
 
 
@@ -238,6 +240,8 @@ def monitor(R, out, log, quat_only=False, failed_steps=()):
     out["probes"][f"ran_{name}"] += 1
     if getattr(B, "nonholonomic", None):
         out["probes"]["nonholonomic_session"] += 1
+    if B.scene.get("t0", 0.0) != 0.0:
+        out["probes"]["nonzero_initial_time_session"] += 1
     if getattr(B, "rods", None):
         out["probes"]["rod_session"] += 1
     return worst
